@@ -22,6 +22,9 @@ type Clause struct {
 	Label string
 	Text  string
 	Expr  ast.Expr
+	// Names: the clause only gives a name (an uninterpreted spec function of the arguments) to the result of a
+	// deterministic observer method; it is assumed at call sites and not an obligation of implementations.
+	Names bool
 }
 
 type Contract struct {
@@ -46,6 +49,7 @@ type Contract struct {
 	Line      int
 	Assumes   []string // free-text assumption notes
 	CallSites []CallSiteClause
+	renameTo  []string // verifyImpl: additional (interface) names for the parameters, positionally
 }
 
 // CallSiteClause: "callsite <callee> [label] expr" — expr is evaluated at every call of
@@ -110,7 +114,7 @@ func (cx *Contracts) ifaceContract(t types.Type, method string) *Contract {
 	return cx.iface[n.Obj().Pkg().Path()+"."+n.Obj().Name()+"."+method]
 }
 
-var clauseRe = regexp.MustCompile(`^(requires|ensures|modifies|let|nopanic|trusted|pure|loop|assumes|callsite)\b\s*(.*)$`)
+var clauseRe = regexp.MustCompile(`^(requires|ensures|names|modifies|let|nopanic|trusted|pure|loop|assumes|callsite)\b\s*(.*)$`)
 var labelRe = regexp.MustCompile(`^\[([^\]]+)\]\s*(.*)$`)
 
 func loadContracts(p *Program, overlay map[string][]byte) *Contracts {
@@ -378,10 +382,11 @@ func (cx *Contracts) finishClause(ct *Contract, kind string, cl *Clause, cf *Con
 			cl.Label = fmt.Sprintf("req%d", len(ct.Requires)+1)
 		}
 		ct.Requires = append(ct.Requires, *cl)
-	case "ensures":
+	case "ensures", "names":
 		if cl.Label == "" {
 			cl.Label = fmt.Sprintf("ens%d", len(ct.Ensures)+1)
 		}
+		cl.Names = kind == "names"
 		ct.Ensures = append(ct.Ensures, *cl)
 	case "modifies":
 		ct.Modifies = append(ct.Modifies, *cl)
